@@ -49,7 +49,7 @@ def render(rng, wl, fmt):
 
 MUTATIONS = ['byteflip', 'nonascii', 'control', 'del_line', 'dup_line', 'swap_lines', 'no_first_gt', 'data_before_header', 'punct_before_header',
              'empty_record', 'header_only', 'single_record', 'huge_name', 'foreign_letters', 'digits', 'many_identical', 'zero_len', 'mixed_formats',
-             'truncate', 'msf_name_at_eol', 'empty_file', 'newlines_only', 'gt_only', 'long_line', 'extra_block_row', 'missing_block_row', 'nul_bytes', 'only_gaps', 'crlf', 'tabs']
+             'truncate', 'msf_name_at_eol', 'random_bytes', 'format_words', 'empty_file', 'newlines_only', 'gt_only', 'long_line', 'extra_block_row', 'missing_block_row', 'nul_bytes', 'only_gaps', 'crlf', 'tabs']
 
 
 def mutate_input(rng, data, wl, fmt, which):
@@ -173,6 +173,16 @@ def mutate_input(rng, data, wl, fmt, which):
         return data.replace(b'\n', b'\r\n')
     if which == 'tabs':
         return data.replace(b' ', b'\t')
+    if which == 'random_bytes':
+        # "whatever bytes are in the input files": no structure at all, or structure with a random tail
+        blob = bytes(rng.randrange(256) for _ in range(rng.choice([1, 16, 300, 5000])))
+        return blob if rng.random() < 0.5 else data[:rng.randrange(len(data) + 1)] + blob
+    if which == 'format_words':
+        # the words the format sniffer looks for, in the wrong places
+        w = rng.choice([b'CLUSTAL W', b'MSF:', b'!!AA_MULTIPLE_ALIGNMENT', b'multiple sequence alignment', b'//', b'Name: x Len: 3', b'>'])
+        i = rng.randrange(len(lines) + 1)
+        lines.insert(i, w)
+        return b'\n'.join(lines)
     if which == 'msf_name_at_eol':
         # an MSF header line that ends right after the name (fields in another order)
         out = []
